@@ -131,6 +131,12 @@ def cases(tier):
     for fname in ('py_plain', 'py_deriv', 'py_both', 'morse', 'buck', 'table'):
         for h in (None, 1e-3, 1e-5, 1e-8):
             out.append(dict(route='util', f=fname, h=h))
+    # as.zbl keeps its screening coefficients as class attributes: a subclass / instance with other coefficients (Moliere, Kr-C) must still
+    # offer the derivatives of ITS energy; and the shared zbl object has no memory of the pair it was last evaluated for
+    for coeffs in ('moliere', 'krc', 'default'):
+        for how in ('subclass', 'instance-attributes'):
+            out.append(dict(route='zbl_coeffs', coeffs=coeffs, how=how))
+    out.append(dict(route='zbl_interleaved'))
     # a power with a constant exponent >= 1 (>= 2 for the curvature) is differentiable where its base is exactly zero
     for base in ('poly_root', 'root*morse', 'root^2'):
         for e in (1, 2, 3, 4, 2.0, 2.5, 3.5, 1.0, 1.5):
@@ -465,7 +471,75 @@ def run_util(case):
     return dict(outcome='ok:util' if not viol else 'violation', nontrivial=True, evals=n, violations=viol)
 
 
+ZBL_SETS = {'moliere': dict(Ck1=0.35, Ck2=0.55, Ck3=0.10, Ck4=0.0, Bk1=0.3, Bk2=1.2, Bk3=6.0, Bk4=1.0),
+            'krc': dict(Ck1=0.190945, Ck2=0.473674, Ck3=0.335381, Ck4=0.0, Bk1=0.278544, Bk2=0.637174, Bk3=1.919249, Bk4=1.0), 'default': {}}
+
+
+def _richardson(f, r, h):
+    d = lambda hh: (f(r + hh) - f(r - hh)) / (2 * hh)   # noqa
+    return (4 * d(h / 2) - d(h)) / 3.0
+
+
+def run_zbl_coeffs(case):
+    import atsim.potentials.potentialfunctions as pf
+    cls = type(pf.zbl)
+    cs = ZBL_SETS[case['coeffs']]
+    if case['how'] == 'subclass':
+        obj = type('MyZBL', (cls,), dict(cs))()
+    else:
+        obj = cls()
+        for k, v in cs.items():
+            setattr(obj, k, v)
+    viol, n = [], 0
+    for z1, z2 in ((14, 8), (92, 92), (1, 2)):
+        for r in (0.3, 0.7, 1.3, 2.9):
+            e = lambda x: obj(x, z1, z2)            # noqa
+            d = lambda x: obj.deriv(x, z1, z2)      # noqa
+            w1, w2 = _richardson(e, r, 1e-3 * r), _richardson(d, r, 1e-3 * r)
+            for which, got, want in (('deriv', obj.deriv(r, z1, z2), w1), ('deriv2', obj.deriv2(r, z1, z2), w2)):
+                n += 1
+                if not abs(got - want) <= 1e-6 * (abs(want) + abs(e(r)) / r):
+                    viol.append(dict(sig='%s-wrong:zbl-with-other-coefficients' % which, msg='zbl (%s coefficients set through %s), Z = %d, %d: %s(%r) = %r, the slope of its own %s is %r'
+                                     % (case['coeffs'], case['how'], z1, z2, which, r, got, 'energy' if which == 'deriv' else 'deriv', want), detail={}))
+                    return dict(outcome='violation', nontrivial=True, evals=n, violations=viol)
+    return dict(outcome='ok:zbl_coeffs', nontrivial=True, evals=n, violations=viol)
+
+
+def run_zbl_interleaved(case):
+    """energy / deriv / deriv2 of several ZBL pairs asked for in every order on the shared as.zbl object: each value depends on its own arguments only"""
+    import atsim.potentials.potentialfunctions as pf
+    z = pf.zbl
+    asks = [(w, zz, r) for w in ('e', 'd', 'd2') for zz in ((14, 8), (92, 8), (40, 40)) for r in (0.5, 1.7)]
+
+    def ask(a):
+        w, (z1, z2), r = a
+        return z(r, z1, z2) if w == 'e' else (z.deriv(r, z1, z2) if w == 'd' else z.deriv2(r, z1, z2))
+    alone = {}
+    for a in asks:
+        alone[a] = ask(a)
+    viol, n = [], 0
+    for a in asks:
+        for b in asks:
+            n += 1
+            ask(b)
+            got = ask(a)
+            if got != alone[a]:
+                viol.append(dict(sig='zbl-depends-on-previous-evaluation', msg='as.zbl %s for Z=%r at r=%r is %r after evaluating %s for Z=%r at r=%r, %r otherwise' % (a[0], a[1], a[2], got, b[0], b[1], b[2], alone[a]), detail={}))
+                return dict(outcome='violation', nontrivial=True, evals=n, violations=viol)
+            # and when b is evaluated BETWEEN the energy and the derivative of a
+            ask(('e', a[1], a[2]))
+            ask(b)
+            if ask(a) != alone[a]:
+                viol.append(dict(sig='zbl-depends-on-previous-evaluation', msg='as.zbl %s for Z=%r at r=%r changes when %s for Z=%r is evaluated between its energy and it' % (a[0], a[1], a[2], b[0], b[1]), detail={}))
+                return dict(outcome='violation', nontrivial=True, evals=n, violations=viol)
+    return dict(outcome='ok:zbl_interleaved', nontrivial=True, evals=n, violations=viol)
+
+
 def run_case(case):
+    if case['route'] == 'zbl_coeffs':
+        return run_zbl_coeffs(case)
+    if case['route'] == 'zbl_interleaved':
+        return run_zbl_interleaved(case)
     if case['route'] == 'util':
         return run_util(case)
     if case['route'] == 'pow_zero':
